@@ -24,9 +24,19 @@ def make_wl(rng, k):
         spec["bam_split"] = ["chunks", "random", "chunks", "tiny"][(i // 4) % 4]
         spec["n_chr"] = max(3, spec.get("n_chr", 3))
         opts["bam_order"] = rng.randrange(1, 20)     # the files are listed in a seeded order, not in chunk order
+        # how the files and their labels are given: --bam [--labels], a list file ('<path>:<label>'), YAML ('labels')
+        opts["input_mode"] = ["auto", "bam_list", "yaml", "auto", "yaml", "bam_list"][(i // 4) % 6]
+        opts["labels"] = [None, "custom", "custom", "custom", "omit", None][(i // 4) % 6]
         if spec["bam_split"] == "chunks":
             # no cross-chromosome records: the first file really has nothing on the last chromosome
             spec.update(paralogs=0, intergenic_multi=0, decoy_chr=0, supplementary=0)
+    if mode == "file":
+        # the documented table layouts: file:<path>[:<read col>:<group col>[:<delim>]], plain or gzipped
+        opts["group_table_fmt"] = [None, "0:1:tab:gz", "2:0:comma", "1:3:semi:gz", "3:1:space", "1:0:tab"][(i // 4) % 6]
+    if mode == "tag":
+        spec["group_tag"] = ["RG", "XG", "RG", "CB"][(i // 4) % 4]
+        if (i // 4) % 4 == 2:
+            opts["read_group"] = "tag_default"      # '--read_group tag' = RG
     opts["annotated"] = True
     strats = ["unique_only", "with_ambiguous", "unique_splicing_consistent", "unique_inconsistent", "all"]
     opts["transcript_quant"] = strats[i % 5]
